@@ -7,7 +7,7 @@
    fairness, are observed by the correspondence scenarios, not proved. *)
 From Coq Require Import List Arith Bool.
 Import ListNotations.
-From SV Require Import Model.TokenSet Model.Accept Proofs.AcceptP.
+From SV Require Import Model.TokenSet Model.Accept Proofs.AcceptP Proofs.AcceptP2.
 
 (* ---- the slot pool driven through its API (src/token_set.rs) ---- *)
 
@@ -102,14 +102,14 @@ Theorem c12_scenario_oracle_safety :
     o_gauge (snd (scenario fixed full n cs)) <= n.
 Proof. exact oracle_c12_acc_safety. Qed.
 
-(* ... and the complete oracle (including "the gauge returns to exactly n afterwards") for every
-   scenario of at most 4 commands over the stated alphabet and n = 1..3, by exhaustive
-   evaluation (finite domain; the unbounded statement is c12_can_refill above). *)
-Theorem c12_scenario_oracle_sound_upto_4 :
-  forall n full cs,
-    In n [1; 2; 3] -> length cs <= 4 -> Forall (fun c => In c c12_alphabet) cs ->
-    oracle_c12_acc n cs (scenario true full n cs) = true.
-Proof. exact oracle_c12_acc_sound_upto_l. Qed.
+(* ... and the complete oracle -- including "with no revocation in the history, after all live
+   connections have ended and n + 1 fresh clients knock, exactly n are served at once" -- for ALL
+   scenarios, every pool size n, direct-drive and full-server mode.  (The settle loop of the
+   interpreter runs the accept task until it is blocked; blocked with a client still waiting means
+   no unit is left in the pool and none in the loop's hands, so by conservation n connections live.) *)
+Theorem c12_scenario_oracle_sound :
+  forall full n cs, oracle_c12_acc n cs (scenario true full n cs) = true.
+Proof. exact oracle_c12_acc_sound_l. Qed.
 
 (* non-vacuity: a run that fills both slots, fails an accept, ends a connection and refills *)
 Example c12_nonvacuous :
@@ -134,4 +134,4 @@ Print Assumptions c12_full_capacity_recoverable.
 Print Assumptions c12_can_refill.
 Print Assumptions c12_scenario_is_trace.
 Print Assumptions c12_scenario_oracle_safety.
-Print Assumptions c12_scenario_oracle_sound_upto_4.
+Print Assumptions c12_scenario_oracle_sound.
